@@ -311,5 +311,7 @@ def main(tier):
     from ..rules import siblings
     siblings.check_offset_rounding(run, fx)
     siblings.check_offset_minutes_by_value(run, fx)
+    from ..rules import extra as _x
+    _x.check_to_string_prints_rounded(run, fx)
     check_utc_offset_components(run, fx)
     return run.finish(EXPLANATION)
